@@ -15,7 +15,7 @@ VARIABLES t, n, ov
 a == Id0("a")  one == IntL(1)
 E == Hole("e")
 Atoms == IF Wide
-         THEN { a, Id(<<"ns">>, "b"), Attr(a, "p"), Attr(Attr(a, "p"), "q"), one, NullL, Lit("Float", "1.5"), BoolL("true"),
+         THEN { a, Id(<<"ns">>, "b"), Attr(a, "p"), Attr(Attr(a, "p"), "q"), Attr(Id(<<"ns">>, "a"), "p"), one, NullL, Lit("Float", "1.5"), BoolL("true"),
                 \* same value, different spelling: equal only if spelled alike
                 BoolL("TRUE"), Lit("Float", "1.50"), Lit("DateTime", "2020-02-29T12:00:00z"),
                 StrL(<<115>>), Lit("Geography", "POINT(1 2)"), Lit("Date", "2020-02-29"), Lit("Time", "12:00:00"),
